@@ -34,6 +34,18 @@ CHECKS = {
    note="The [-1,1] clause is checked on the implementation with a 1e-9 allowance (real outputs contain 1.0000000000000002), the model proves it "
         "exactly; aggregate probability compared with the float running product within 1e-12.",
    technique=TECH, ref="DESIGN.md section 7 C03"),
+ 'C06': dict(
+   text="Theorems: c06_factor_one_subset_is_everything (with bootstrap factor 1 every acceptable draw, sorted as tally_votes sorts it, is the whole marker "
+        "list 0..n-1 whatever the generator returned) and c06_nearest_independent_of_draw; c06_per_cell (for EVERY decision procedure whose record for a cell "
+        "is a function of that cell alone, every valid taxonomy, cell list and generator state, run_type_assignment — shared previously_assigned tables, "
+        "write-back by row index, visits in sorted node order — equals, row by row, the per-cell recursion map_one down the tree); corollaries "
+        "c06_same_cell_same_row (permutation, subset, superset, duplication: same cell, same row, at any positions of any two runs) and c06_chunking (any split "
+        "into chunks run from any generator states concatenates to the whole run). Tie: (i) real run_type_assignment with the per-cell recorded-choice oracle on "
+        "cell lists and their permuted / thinned / duplicated versions vs map_one (extracted, tag 601); (ii) paired real run_mapping runs at factor 1: permutation, "
+        "subset, superset, duplicated rows, other chunk sizes / worker counts / encodings, raw vs log2CPM input, joined on cell id.",
+   note="That the real _run_type_assignment at factor 1 is per-cell (normalisation row-wise, correlation of a row with the reference independent of the other rows) "
+        "is established by the paired runs, not proved; correlations compared within 1e-9 because BLAS may sum in a different order when the company changes.",
+   technique=TECH, ref="DESIGN.md section 7 C06"),
  'C08': dict(
    text="Theorems (for every tree, marker table, query/reference gene lists, min_markers): c08_used_equals_spec (genes used for a parent with >= 2 children "
         "= own list intersected with the query if large enough, else the minimal union with the nearest ancestors / root, computed from the ORIGINAL table: "
